@@ -10,7 +10,7 @@ d=seeded$wave/$id
 mkdir -p $d/demo
 cp $wt/../$id.patch.diff $d/patch.diff
 cp $wt/../$id.meta.json $d/meta.json
-find $wt -name 'mut2_demo_test.go' -exec cp {} $d/demo/ \;
+find $wt -name 'mut*_demo_test.go' -exec cp {} $d/demo/ \;
 (cd $wt && GOFLAGS=-mod=mod GOPROXY=off GOSUMDB=off go build ./... ) > $d/build.txt 2>&1 || echo "BUILD FAILS" >> $d/build.txt
 VERIF_REPO=$wt ./check $id > $d/check.out 2>&1; rc=$?
 echo "exit=$rc" > $d/result.txt
